@@ -1,36 +1,8 @@
-// generated by props/C14.py
-#include "stubs.h"
-#include <tins/tins.h>
+#include "vp.h"
+#include <tins/udp.h>
+#include <tins/rawpdu.h>
+#include <tins/dot1q.h>
 using namespace Tins;
-namespace {
-struct ProbePDU : public PDU {
-    bool answer;
-    explicit ProbePDU(bool a) : answer(a) {}
-    uint32_t header_size() const { return 0; }
-    ProbePDU* clone() const { return new ProbePDU(*this); }
-    PDUType pdu_type() const { return PDU::RAW; }
-    void write_serialization(uint8_t*, uint32_t) {}
-    bool matches_response(const uint8_t* ptr, uint32_t total_sz) const {
-        vp_assert(vp_r_ok(ptr, total_sz), "range handed to the inner layer's matcher lies inside the reply buffer");
-        return answer;
-    }
-};
-static void put16(uint8_t* p, uint16_t v) { p[0] = (uint8_t)(v >> 8); p[1] = (uint8_t)v; }
-static void put32(uint8_t* p, uint32_t v) { p[0] = (uint8_t)(v >> 24); p[1] = (uint8_t)(v >> 16); p[2] = (uint8_t)(v >> 8); p[3] = (uint8_t)v; }
-}
-H(h_c14_rel_IP) {
-    uint32_t s = vp_u32(), d = vp_u32();
-    IP req; req.src_addr(IPv4Address(s)); req.dst_addr(IPv4Address(d));
-    vp_assume(d != 0xffffffffu && s != 0);          // not a broadcast request
-    req.inner_pdu(new ProbePDU(true));
-    uint8_t* b = vp_buf(20);
-    b[0] = 0x45;
-    vp_assume(b[9] != 1);                            // the reply is not ICMP (destination-unreachable quoting is a separate rule)
-    uint32_t rs = vp_u32(), rd = vp_u32();
-    __builtin_memcpy(b + 12, &rs, 4); __builtin_memcpy(b + 16, &rd, 4);
-    vp_assert(!req.dst_addr().is_broadcast(), "DBG dst not broadcast"); vp_assert(req.src_addr() == IPv4Address(s), "DBG src set"); vp_assert((uint32_t)req.dst_addr() == d, "DBG dst set");
-    const PDU& pk = req;
-    bool m = pk.matches_response(b, 20);
-    vp_assert(m == (rs == d && rd == s), "IPv4: a non-ICMP reply matches exactly when its addresses are the request's addresses swapped");
-    vp_free(b); vp_witness();
-}
+H(h_dbg_1) { uint8_t pl[2] = {1,2}; UDP u(1, 2); u.inner_pdu(new RawPDU(pl, 2)); vp_assert(u.inner_pdu()->parent_pdu() == &u, "p"); vp_witness(); }
+H(h_dbg_2) { uint8_t pl[2] = {1,2}; UDP u(1, 2); u.inner_pdu(new RawPDU(pl, 2)); PDU* c = u.clone(); vp_assert(c->inner_pdu() != 0 && c->inner_pdu()->parent_pdu() == c, "p"); delete c; vp_witness(); }
+H(h_dbg_3) { uint8_t pl[2] = {1,2}; UDP u(1, 2); u.inner_pdu(RawPDU(pl, 2)); vp_assert(u.inner_pdu()->parent_pdu() == &u, "p"); vp_witness(); }
